@@ -213,7 +213,7 @@ def run(ck):
 
     # ---- 3. Listener.serve with the production matchers (and random tables) on a scripted conn
     cases = []
-    for i in range(30000 if T else 3000):
+    for i in range(30000 if T else 2200):
         data = gen_stream(rng, 100 if not T else 1500)
         nch = 3 if T else 2
         for _ in range(nch):
@@ -263,6 +263,23 @@ def run(ck):
     # the sniff deadline must be lifted once matched: the payload arrives after it would have fired
     for m in ("PLAY rtsp://h/x RTSP/1.0\r\nCSeq: 1\r\n\r\n", "POST /upload HTTP/1.1\r\nHost: x\r\n\r\n"):
         cases.append([120, m.encode(), 2000, 7, [len(m)], 250000, 512, rng.random() < 0.5])
+    # service.listen itself (hook service.VerifListen): production registration order, tcp.Server and http.Server
+    for i in range(60 if T else 14):
+        k = rng.random()
+        if k < 0.4:
+            m = rng.choice(RTSP_METHODS + ["OPTIONS"])
+            head = ("%s %s RTSP/1.0\r\nCSeq: 1\r\n\r\n" % (m, rng.choice(["rtsp://h/x", "*", "RTSP://h/s"]))).encode()
+            fill = rng.choice([0, 100, 5000])
+        elif k < 0.8:
+            m = rng.choice(["GET", "POST", "PUT", "DELETE", "OPTIONS", "PATCH", "HEAD"])
+            fill = rng.choice([0, 10, 3000]) if m in ("POST", "PUT", "PATCH") else 0
+            head = ("%s %s HTTP/1.1\r\nHost: x\r\nContent-Length: %d\r\n\r\n" % (m, rng.choice(["/", "/api/v1/x", "/streams/a.flv"]), fill)).encode()
+        else:
+            head = rng.choice([b"\x16\x03\x01\x02\x00\x01\x00\x01\xfc\x03\x03aaaaaaaaaa", b"SSH-2.0-OpenSSH_8.9\r\n", b"get / http/1.1\r\n\r\n",
+                               b"describe rtsp://h/x RTSP/1.0\r\n\r\n", b" GET / HTTP/1.1\r\nHost: x\r\n\r\n"])
+            fill = 0
+        splits = [rng.choice([1, 3, 7, 8, 16])] * rng.randint(0, 3)
+        cases.append([-1, head, fill, rng.randrange(1 << 30), splits, rng.choice([0, 300]), rng.choice([7, 512, 4096]), rng.random() < 0.5])
     # a silent connection that sent nothing must be closed at the sniff timeout
     cases.append([120, b"", 0, 0, [], 0, 16, True])
     cases.append([120, b"GET /\r\n", 0, 0, [], 0, 16, True])
@@ -282,9 +299,10 @@ def run(ck):
              ">= 2 service reads. (3) Listener.serve with rtsp.MatchRTSP()/listener.MatchHTTP() registered as in service.listen (and random "
              "tables) on scripted conns, each first line under several segmentations; non-trivial = >= 2 segments and >= 8 bytes. "
              "(4) real loopback connections through listener.New/ServeAsync/Serve with stub services, client write splits with gaps, "
-             "half-close or silence (sniff timeout 120 ms), payloads to 150 KB (1 MiB thorough).",
+             "half-close or silence (sniff timeout 120 ms), payloads to 150 KB (1 MiB thorough); plus well-formed RTSP/HTTP requests and "
+             "non-protocol openings through the production service.listen (tcp.Server / http.Server behind it).",
         trusted=["the scripted net.Conn of the harness implements the read-script semantics of Model/C19Sniffer.v (src_read)",
-                 "the harness registers rtsp.MatchRTSP() then listener.MatchHTTP() as service.listen does (service.listen itself needs the whole server configuration)",
+                 "scripted-conn and stub-service streams register rtsp.MatchRTSP() then listener.MatchHTTP() like service.listen; service.listen itself is exercised by the loopback cases with timeout -1 (hook service.VerifListen)",
                  "bytes.Buffer Write/Bytes/Len/Cap, io.ReadFull and copy are modelled from their documentation",
                  "loopback stream: payload equality is computed by the harness; TCP re-segmentation is arbitrary, the model's answer is proved independent of it (mux_classify)"],
         assumptions=["TLS handshake and accept backlog are outside the model (the sniffer sits above tls.Conn; its read results are covered by the script model)",
